@@ -8,6 +8,7 @@ tokenised and parsed with the grammar model and read with the language's form ta
 from __future__ import annotations
 
 import ast
+import copy
 import itertools
 from typing import Any, Iterator
 
@@ -24,11 +25,74 @@ DT = "explorerscript.ssb_converting.ssb_data_types"
 PERF = "$PERF"
 
 
+# methods of the class under analysis, so that `return self._helper(op, 0, "debug")` is read through the helper's own returns
+_HELPERS: dict[str, ast.FunctionDef] = {}
+
+
+class _Subst(ast.NodeTransformer):
+    def __init__(self, m: dict[str, ast.expr]) -> None:
+        self.m = m
+
+    def visit_Name(self, node: ast.Name) -> ast.AST:
+        if isinstance(node.ctx, ast.Load) and node.id in self.m:
+            return copy.deepcopy(self.m[node.id])
+        return node
+
+    def visit_JoinedStr(self, node: ast.JoinedStr) -> ast.AST:
+        self.generic_visit(node)
+        vals: list[ast.expr] = []
+        for v in node.values:
+            if isinstance(v, ast.FormattedValue) and v.conversion == -1 and v.format_spec is None and isinstance(v.value, ast.Constant) and isinstance(v.value.value, str):
+                vals.append(ast.Constant(value=v.value.value))  # a substituted text constant is literal text
+            elif isinstance(v, ast.FormattedValue) and v.conversion == -1 and v.format_spec is None and isinstance(v.value, ast.JoinedStr):
+                vals.extend(v.value.values)  # a substituted f-string is spliced in
+            else:
+                vals.append(v)
+        merged: list[ast.expr] = []
+        for v in vals:
+            if merged and isinstance(v, ast.Constant) and isinstance(merged[-1], ast.Constant):
+                merged[-1] = ast.Constant(value=merged[-1].value + v.value)
+            else:
+                merged.append(v)
+        return ast.copy_location(ast.JoinedStr(values=merged), node)
+
+
+def _through_helper(call: ast.expr, depth: int = 0) -> list[tuple[list[tuple[ast.expr, bool]], ast.expr]] | None:
+    """`self.helper(args)` -> [(guards, returned expression)] with the helper's parameters replaced by the arguments."""
+    if not (isinstance(call, ast.Call) and isinstance(call.func, ast.Attribute) and isinstance(call.func.value, ast.Name) and call.func.value.id in ("self", "cls")
+            and call.func.attr in _HELPERS and not call.keywords and depth < 3):
+        return None
+    fn = _HELPERS[call.func.attr]
+    params = [a.arg for a in fn.args.args]
+    if params and params[0] in ("self", "cls") and not any(isinstance(d, ast.Name) and d.id == "staticmethod" for d in fn.decorator_list):
+        params = params[1:]
+    if len(params) != len(call.args):
+        return None
+    sub = _Subst(dict(zip(params, call.args)))
+    out = []
+    for g, e, env in _variants(fn.body, [], {}, None):
+        if env:
+            e = _Subst(env).visit(copy.deepcopy(e))
+        e2 = ast.fix_missing_locations(sub.visit(copy.deepcopy(e)))
+        g2 = [(ast.fix_missing_locations(sub.visit(copy.deepcopy(t))), b) for t, b in g]
+        inner = _through_helper(e2, depth + 1)
+        if inner is not None:
+            out.extend((g2 + gi, ei) for gi, ei in inner)
+        else:
+            out.append((g2, e2))
+    return out
+
+
 def _variants(stmts: list[ast.stmt], guards: list[tuple[ast.expr, bool]], env: dict[str, ast.expr], sink: str | None) -> Iterator[tuple[list[tuple[ast.expr, bool]], ast.expr, dict[str, ast.expr]]]:
     """(guards, printed expression, local env) for every `return <expr>` / `<sink>(<expr>)` reachable in stmts."""
     env = dict(env)
     for st in stmts:
         if isinstance(st, ast.Return) and st.value is not None and sink is None:
+            th = _through_helper(st.value)
+            if th is not None:
+                for g, e in th:
+                    yield guards + g, e, env
+                return
             yield guards, st.value, env
             return
         if isinstance(st, ast.Expr) and isinstance(st.value, ast.Call) and sink is not None and isinstance(st.value.func, ast.Attribute) \
@@ -258,11 +322,15 @@ def forms_rule(chk: Check, ctx: Any, rule: str) -> None:
 
     # ---- if headers
     ih = repo.func(f"{WH}.label_jumps.if_start:IfWriteHandler._if_header_for")
+    _HELPERS.clear()
+    _HELPERS.update(ih.cls.methods if ih.cls is not None else {})
     for names, guards, expr, env in opcode_branches(ih.node, fold, ih.mod, None):
         for nm in names:
             check_template(ih, nm, guards, expr, env, "if_header", ("", ""), lambda tree, so: LF.if_header(tree, PERF, branch_ops))
     # ---- switch headers
     sh = repo.func(f"{WH}.label_jumps.switch_start:SwitchWriteHandler._switch_header_for")
+    _HELPERS.clear()
+    _HELPERS.update(sh.cls.methods if sh.cls is not None else {})
     for names, guards, expr, env in opcode_branches(sh.node, fold, sh.mod, None):
         for nm in names:
             check_template(sh, nm, guards, expr, env, "switch_header", ("", ""), lambda tree, so: LF.switch_header(tree))
@@ -276,6 +344,8 @@ def forms_rule(chk: Check, ctx: Any, rule: str) -> None:
                            lambda tree, so, nm=nm: LF.case_header(tree, "SwitchScenario" if nm == "CaseScenario" else "Switch"))
     # ---- flag ops
     fl = repo.func(f"{WH}.simple_ops.flag:FlagSimpleOpWriteHandler.write_content")
+    _HELPERS.clear()
+    _HELPERS.update(fl.cls.methods if fl.cls is not None else {})
     for names, guards, expr, env in opcode_branches(fl.node, fold, fl.mod, "write_stmnt"):
         for nm in names:
             check_template(fl, nm, guards, expr, env, "simple_stmt", ("", ""), lambda tree, so: LF.simple_stmt(tree, PERF)[0])
